@@ -34,7 +34,7 @@ ASSUMPTIONS = [
 ]
 REQUIRED = {"round_trips": 1500, "rechunked_round_trips": 500, "pool_saves": 300, "pool_loads": 300,
             "metadata_checks": 1500, "rows_compared": 3000, "scheduled_pool_saves": 600, "scheduling_points": 20000,
-            "distinct_pool_schedules": 200, "forked_saver_trips": 100}
+            "distinct_pool_schedules": 200, "forked_saver_trips": 100, "concurrent_big_loads": 12}
 UNIT_TIMEOUT = 1200
 COMPRESSORS = ("blosc", "zstd", "lz4", "bz2")
 
@@ -215,6 +215,51 @@ def forked_trip(case, comp):
         hrun.rm(d)
 
 
+def big_pool_trip(comp, seed, rounds, nchunks=12, nrows=20000, threads=8):
+    """Chunk files of realistic size (hundreds of kB) read concurrently by a real thread pool: the decompression
+    itself runs in parallel (the GIL is released inside the compressors)."""
+    dt = dtypes()[0]
+    rng = np.random.default_rng(seed)
+    chunks, arrays = [], []
+    t = 0
+    for i in range(nchunks):
+        a = np.zeros(nrows, dtype=dt)
+        a["time"] = t + np.arange(nrows) * 10
+        a["endtime"] = a["time"] + 5
+        a["x"] = rng.integers(0, 2 ** 40, nrows)
+        end = t + nrows * 10
+        chunks.append(strax.Chunk(data_type="dd", data_kind="dd", dtype=dt, run_id="0", start=t, end=end, data=a, target_size_mb=200))
+        arrays.append(a)
+        t = end
+    full = np.concatenate(arrays)
+    d = hrun.mktemp("c03b-")
+    errs = []
+    pool = ThreadPoolExecutor(threads)
+    try:
+        sfe = strax.DataDirectory(d)
+        key = strax.DataKey("0", "dd", {"dd": ("P", "0", {})})
+        md = dict(run_id="0", data_type="dd", data_kind="dd", dtype=np.dtype(dt), compressor=comp,
+                  lineage=key.lineage, chunk_target_size_mb=200)
+        with common.quiet():
+            sfe.saver(key, md).save_from(iter(chunks), rechunk=False)
+        for r in range(rounds):
+            try:
+                with common.quiet():
+                    got = [c.result() if isinstance(c, Future) else c for c in sfe.loader(key, executor=pool)]
+                g = np.concatenate([c.data for c in got])
+                if g.tobytes() != full.tobytes():
+                    bad = int((g["x"] != full["x"]).sum()) if len(g) == len(full) else -1
+                    errs.append(("rows", f"round {r}: concurrent loading returned other bytes than were written ({bad} rows differ)"))
+                    break
+            except Exception as e:  # noqa: BLE001
+                errs.append(("exception", f"round {r}: concurrent loading of intact files failed: {e!r}", e))
+                break
+        return errs
+    finally:
+        pool.shutdown()
+        hrun.rm(d)
+
+
 def sched_trip(case, comp, rechunk, workers, mode, sseed):
     """save_from through a worker pool whose threads are scheduled adversarially (cooperative scheduler:
     the order in which queued chunk writes start and finish relative to the saver is the chooser's)."""
@@ -267,12 +312,26 @@ def units(tier, seed):
     pers = 6 if q else 60
     us += [{"name": f"sched-{k}", "fam": "sched", "seed": seed, "lo": 10 ** 6 + k * pers, "hi": 10 ** 6 + (k + 1) * pers,
             "reps": 3 if q else 6} for k in range(ns)]
+    us.append({"name": "bigpool", "fam": "bigpool", "seed": seed, "rounds": 4 if q else 25})
     return us
 
 
 def run_unit(u):
     res = {"evaluations": 0, "hashes": [], "counters": {}, "samples": [], "violations": [], "inconclusive": []}
     cnt = res["counters"]
+    if u.get("fam") == "bigpool":
+        for comp in COMPRESSORS:
+            errs = big_pool_trip(comp, u["seed"], u["rounds"])
+            res["evaluations"] += 1
+            res["hashes"].append(common.chash(["bigpool", comp, u["seed"]]))
+            cnt["concurrent_big_loads"] = cnt.get("concurrent_big_loads", 0) + u["rounds"]
+            for e in errs[:1]:
+                sig = {"kind": e[0], "rechunk": False, "save_pool": False, "load_pool": "big", "compressor": comp}
+                if len(e) > 2:
+                    sig.update(common.exc_sig(e[2]))
+                res["violations"].append({"sig": sig, "what": f"{e[0]}: {e[1]}"[:500], "case": {"bigpool": comp, "seed": u["seed"], "rounds": u["rounds"]}})
+        res["samples"].append({"bigpool": "12 chunks x 20000 rows x 4 compressors, 8 loader threads"})
+        return res
     if u.get("fam") == "sched":
         sigs = set()
         for idx in range(u["lo"], u["hi"]):
@@ -358,6 +417,9 @@ def run_unit(u):
 
 
 def replay(case):
+    if "bigpool" in case:
+        errs = big_pool_trip(case["bigpool"], case["seed"], max(10, case["rounds"]))
+        return [{"sig": {"kind": e[0]}, "what": e[1], "case": case} for e in errs]
     if "forked_combo" in case:
         base = {k: v for k, v in case.items() if k != "forked_combo"}
         o = forked_trip(base, case["forked_combo"]["compressor"])
